@@ -49,9 +49,14 @@ def dotted(e) -> str:
     return "?"
 
 
+_MOD_OF: Dict[int, ast.Module] = {}
+
+
 def func_node(tree, qual: str) -> Optional[ast.FunctionDef]:
     try:
-        return tree.func(qual).node
+        fi = tree.func(qual)
+        _MOD_OF[id(fi.node)] = fi.module.tree
+        return fi.node
     except Exception:
         return None
 
@@ -159,6 +164,24 @@ class Writer:
 
     def __init__(self, fnode, loop: ast.For, row_expr: str = "row_index", fill="_fill_cell", outer_env: Optional[Dict[str, object]] = None):
         self.loop = loop
+        self.fnode = fnode
+        self.scope = scope_of(fnode, _MOD_OF.get(id(fnode)))
+        if row_expr.isidentifier():
+            # the row variable is whatever the cell writes of this loop pass as their row (robust against a rename of the local / parameter)
+            from collections import Counter
+            cnt = Counter(ast.unparse(c.args[1]) for st in loop.body for c in ast.walk(st) if isinstance(c, ast.Call) and isinstance(c.func, ast.Attribute) and
+                          c.func.attr == fill and len(c.args) >= 4 and isinstance(c.args[1], ast.Name))
+            if cnt:
+                row_expr = cnt.most_common(1)[0][0]
+        else:
+            # counter lvalue such as row_indexes[sheet.name]: the local that is read from it and passed as the row
+            for st in loop.body:
+                tg = st.targets[0] if isinstance(st, ast.Assign) and len(st.targets) == 1 else st.target if isinstance(st, ast.AnnAssign) else None
+                if isinstance(tg, ast.Name) and getattr(st, "value", None) is not None and isinstance(st.value, ast.Subscript) and \
+                        any(isinstance(c, ast.Call) and isinstance(c.func, ast.Attribute) and c.func.attr == fill and len(c.args) >= 4 and ast.unparse(c.args[1]) == tg.id
+                            for s2 in loop.body for c in ast.walk(s2)):
+                    row_expr = ast.unparse(st.value)
+                    break
         self.row_src = row_expr
         tgt = loop.target
         env: Dict[str, object] = dict(outer_env or {})
@@ -218,17 +241,22 @@ class Writer:
                     self.cells.append((colv, self.n(c.args[3]), guards, c.lineno, self.n(c.args[1]), self.n(c.args[0])))
 
 
+def _guards_eq(want, got, sc) -> bool:
+    return len(want) == len(got) and all(wb == gb and expr_eq(wt, gt, sc) if not wt.startswith("<") else (wt, wb) == (gt, gb) for (wt, wb), (gt, gb) in zip(want, got))
+
+
 def writer_vcs(qual: str, relpath: str, w: Optional[Writer], iter_expected: str, bindings: Dict, row_norm: Optional[str] = None, advance: Optional[str] = None,
                allow_raise_guards: Tuple[str, ...] = ("isinstance",), tag: str = "") -> List[VC]:
     """bindings: column -> expected value  |  column -> {guard or None: value}.  A guard is the normalized test text, prefixed with 'not ' for
-    the else branch; a value may be a tuple of accepted alternatives."""
+    the else branch; a value may be a tuple of accepted alternatives.  Expected and actual expressions are compared modulo local names."""
     out = []
     t = (tag + "_") if tag else ""
     if w is None:
         return [bvc(qual, "writer", f"{t}loop_present", False, relpath, "writer loop not found (code restructured): obligation open", open_=True)]
+    sc = w.scope
     row_norm = row_norm or w.row_norm
     advance = advance or ("Add:1" if w.row_src.isidentifier() else f"store:{row_norm} + 1")
-    out.append(bvc(qual, "writer", f"{t}W1_iterates_{_lab(iter_expected)}", w.iter == iter_expected, f"{relpath}:{w.loop.lineno}", f"iterates {w.iter}"))
+    out.append(bvc(qual, "writer", f"{t}W1_iterates_{_lab(iter_expected)}", expr_eq(iter_expected, w.iter, sc), f"{relpath}:{w.loop.lineno}", f"iterates {w.iter}"))
     bad_skips = [s for s in w.skips if not (s[0] == "raise" and s[1] and any(g in s[1][-1][0] for g in allow_raise_guards))]
     out.append(bvc(qual, "writer", f"{t}W2_every_element_gets_a_row_no_break_continue_return", not bad_skips, f"{relpath}:{w.loop.lineno}", str(bad_skips)[:300]))
     adv_ok = len(w.advances) == 1 and w.advances[0][0] == advance and w.advances[0][1] == ()
@@ -241,17 +269,19 @@ def writer_vcs(qual: str, relpath: str, w: Optional[Writer], iter_expected: str,
         writes = [c for c in w.cells if c[0] == col and c[4] == row_norm]
         ok = True
         notes = []
+        wants = []
         for guard, val in exp.items():
             vals = val if isinstance(val, tuple) else (val,)
             want = () if guard is None else _guard_tuple(guard)
-            hit = [c for c in writes if c[2] == want]
+            wants.append(want)
+            hit = [c for c in writes if _guards_eq(want, c[2], sc)]
             if not hit:
                 ok = False
                 notes.append(f"no write of column {col} under guard {guard}")
-            elif not all(c[1] in vals for c in hit):
+            elif not all(any(expr_eq(v, c[1], sc) for v in vals) for c in hit):
                 ok = False
                 notes.append(f"column {col} under guard {guard} receives {[c[1] for c in hit]}, contract says {vals[0]}")
-        stray = [c for c in writes if c[2] not in [() if g is None else _guard_tuple(g) for g in exp]]
+        stray = [c for c in writes if not any(_guards_eq(wn, c[2], sc) for wn in wants)]
         if stray:
             ok = False
             notes.append(f"further writes to column {col}: {[(c[1], c[2]) for c in stray]}")
@@ -289,8 +319,9 @@ def writer_for(tree, qual: str, iter_expected: str, row_expr: str = "row_index")
     if f is None:
         return None, None
     env = function_env(f)
+    sc = scope_of(f, _MOD_OF.get(id(f)))
     for lp in loops_of(f):
-        if norm_expr(lp.iter, env) == iter_expected:
+        if expr_eq(iter_expected, norm_expr(lp.iter, env), sc):
             return f, Writer(f, lp, row_expr=row_expr, outer_env=env)
     return f, None
 
@@ -314,3 +345,286 @@ def header_list(fnode, attr: str) -> Optional[List[str]]:
                     return None
             return out
     return None
+
+
+# ------------------------------------------------------------------------------------------------------------------ matching modulo local names
+# Expected code is written with the names the current tree uses.  To keep the obligations stable under harmless renames of locals and
+# parameters, expected and actual code are compared modulo a consistent, injective renaming: a name of the expected snippet that the actual
+# function does not know as a module-level name, builtin or attribute is a metavariable and may stand for any local or parameter of the
+# actual function (the same one everywhere in that function).  `ANY` matches any expression, `ANY(...)`/`f(ANY)` accordingly; a lone `...`
+# statement matches any (possibly empty) sequence of statements.  Names starting with ELT (normal form of loop elements) only match themselves.
+import builtins as _builtins
+
+
+class Scope:
+    def __init__(self, fnode, mod_tree=None):
+        self.params = set()
+        self.locals = set()
+        if fnode is not None and hasattr(fnode, "args"):
+            a = fnode.args
+            self.params = {x.arg for x in a.args + a.kwonlyargs + a.posonlyargs} | ({a.vararg.arg} if a.vararg else set()) | ({a.kwarg.arg} if a.kwarg else set())
+        if fnode is not None:
+            for n in ast.walk(fnode):
+                if isinstance(n, ast.Name) and isinstance(n.ctx, (ast.Store, ast.Del)):
+                    self.locals.add(n.id)
+                elif isinstance(n, ast.ExceptHandler) and n.name:
+                    self.locals.add(n.name)
+        self.globals = set(dir(_builtins))
+        if mod_tree is not None:
+            for n in ast.walk(mod_tree):
+                if isinstance(n, (ast.Import, ast.ImportFrom)):
+                    self.globals |= {(x.asname or x.name).split(".")[0] for x in n.names}
+            for n in mod_tree.body:
+                if isinstance(n, (ast.FunctionDef, ast.ClassDef)):
+                    self.globals.add(n.name)
+                for t in (n.targets if isinstance(n, ast.Assign) else [n.target] if isinstance(n, ast.AnnAssign) else []):
+                    if isinstance(t, ast.Name):
+                        self.globals.add(t.id)
+        self.env: Dict[str, str] = {}
+
+    def bindable(self) -> set:
+        return self.locals | self.params
+
+
+_SKIP_FIELDS = {"ctx", "lineno", "col_offset", "end_lineno", "end_col_offset", "type_comment", "kind"}
+
+
+def amatch(e, a, sc: Scope, strict_annotations: bool = False) -> bool:
+    if isinstance(e, ast.Name) and e.id == "ANY":
+        return True
+    if isinstance(e, ast.Constant) and e.value is Ellipsis and not isinstance(a, ast.Constant):
+        return True
+    if type(e) is not type(a):
+        return False
+    if isinstance(e, ast.Name):
+        if e.id.startswith("ELT") or a.id.startswith("ELT"):
+            return e.id == a.id
+        if a.id not in sc.bindable():
+            return e.id == a.id                      # module-level name, builtin or free name: literally the same
+        if e.id in sc.globals and e.id not in sc.bindable():
+            return False                             # a module-level name of the expectation never stands for a local
+        if e.id in sc.bindable():
+            return e.id == a.id                      # the function still uses this name: it stands for itself (a swap of two locals is not a renaming)
+        if e.id in sc.env:
+            return sc.env[e.id] == a.id
+        if a.id in sc.env.values():
+            return False
+        sc.env[e.id] = a.id
+        return True
+    if isinstance(e, ast.arg):
+        return amatch(ast.Name(id=e.arg, ctx=ast.Load()), ast.Name(id=a.arg, ctx=ast.Load()), sc)
+    if isinstance(e, ast.AnnAssign) and not strict_annotations:
+        # annotations are documentation: `x: T = v` matches `x = v` handled by the caller; here only compare target and value
+        return amatch(e.target, a.target, sc) and ((e.value is None) == (a.value is None)) and (e.value is None or amatch(e.value, a.value, sc))
+    for f in e._fields:
+        if f in _SKIP_FIELDS:
+            continue
+        ev, av = getattr(e, f, None), getattr(a, f, None)
+        if isinstance(ev, list):
+            if not isinstance(av, list):
+                return False
+            if f in ("body", "orelse", "finalbody") and ev and all(isinstance(x, ast.stmt) for x in ev):
+                if not _match_block(ev, av, sc, anchored=True):
+                    return False
+                continue
+            if len(ev) != len(av):
+                # a call written f(ANY) matches any argument list
+                if f in ("args", "keywords") and isinstance(e, ast.Call) and len(e.args) == 1 and isinstance(e.args[0], ast.Name) and e.args[0].id == "ANY" and not e.keywords:
+                    continue
+                return False
+            for x, y in zip(ev, av):
+                if isinstance(x, ast.AST):
+                    if not amatch(x, y, sc):
+                        return False
+                elif x != y:
+                    return False
+        elif isinstance(ev, ast.AST):
+            if not isinstance(av, ast.AST) or not amatch(ev, av, sc):
+                return False
+        else:
+            if ev != av:
+                if f == "id":
+                    continue
+                return False
+    return True
+
+
+def _is_ellipsis_stmt(st) -> bool:
+    return isinstance(st, ast.Expr) and isinstance(st.value, ast.Constant) and st.value.value is Ellipsis
+
+
+def _norm_stmt(st):
+    """`x: T = v` and `x = v` are the same statement for matching purposes."""
+    if isinstance(st, ast.AnnAssign) and st.value is not None:
+        return ast.Assign(targets=[st.target], value=st.value)
+    return st
+
+
+def _match_block(exp: List[ast.stmt], act: List[ast.stmt], sc: Scope, anchored: bool) -> bool:
+    """exp matches a run of consecutive statements of act (anywhere unless anchored at both ends; `...` = any run of statements)."""
+    def rec(i, j, env0):
+        if i == len(exp):
+            return j == len(act) or not anchored
+        if _is_ellipsis_stmt(exp[i]):
+            for k in range(j, len(act) + 1):
+                saved = dict(sc.env)
+                if rec(i + 1, k, env0):
+                    return True
+                sc.env = saved
+            return False
+        if j >= len(act):
+            return False
+        saved = dict(sc.env)
+        if amatch(_norm_stmt(exp[i]), _norm_stmt(act[j]), sc) and rec(i + 1, j + 1, env0):
+            return True
+        sc.env = saved
+        return False
+    starts = [0] if anchored else range(len(act) + 1)
+    for s0 in starts:
+        saved = dict(sc.env)
+        if rec(0, s0, saved):
+            return True
+        sc.env = saved
+    return False
+
+
+_SCOPES: Dict[int, Scope] = {}
+
+
+def scope_of(fnode, mod_tree=None) -> Scope:
+    if id(fnode) not in _SCOPES:
+        _SCOPES[id(fnode)] = Scope(fnode, mod_tree)
+    return _SCOPES[id(fnode)]
+
+
+def has(fnode, snippet: str, mod_tree=None, scope: Optional[Scope] = None) -> bool:
+    """The statements of `snippet` occur consecutively in some block of `fnode`, modulo the renaming of locals / parameters (consistent per function)."""
+    if fnode is None:
+        return False
+    import textwrap
+    try:
+        exp = ast.parse(textwrap.dedent(snippet)).body
+    except SyntaxError:
+        return ast.unparse(ast.parse(textwrap.dedent(snippet), mode="eval")) in ast.unparse(fnode) if False else False
+    sc = scope or scope_of(fnode, mod_tree)
+    blocks = []
+    for n in ast.walk(fnode):
+        for f in ("body", "orelse", "finalbody"):
+            b = getattr(n, f, None)
+            if isinstance(b, list) and b and isinstance(b[0], ast.stmt):
+                blocks.append(b)
+    for b in blocks:
+        if _match_block(exp, b, sc, anchored=False):
+            return True
+    return False
+
+
+def has_expr(fnode, expr_src: str, mod_tree=None) -> bool:
+    """Some sub-expression (or keyword argument `name=value`) of fnode matches, modulo local names."""
+    if fnode is None:
+        return False
+    sc = scope_of(fnode, mod_tree)
+    if "=" in expr_src and expr_src.split("=")[0].isidentifier() and not expr_src.split("=", 1)[1].startswith("="):
+        k, v = expr_src.split("=", 1)
+        e = ast.parse(v, mode="eval").body
+        for n in ast.walk(fnode):
+            if isinstance(n, ast.keyword) and n.arg == k:
+                saved = dict(sc.env)
+                if amatch(e, n.value, sc):
+                    return True
+                sc.env = saved
+        return False
+    e = ast.parse(expr_src, mode="eval").body
+    for n in ast.walk(fnode):
+        if isinstance(n, ast.expr):
+            saved = dict(sc.env)
+            if amatch(e, n, sc):
+                return True
+            sc.env = saved
+    return False
+
+
+def expr_eq(expected_src: str, actual_src: str, sc: Scope) -> bool:
+    if expected_src == actual_src:
+        return True
+    try:
+        e, a = ast.parse(expected_src, mode="eval").body, ast.parse(actual_src, mode="eval").body
+    except SyntaxError:
+        return False
+    saved = dict(sc.env)
+    if amatch(e, a, sc):
+        return True
+    sc.env = saved
+    return False
+
+
+class Fn:
+    """A function of the tree under test with matching helpers (all modulo local names, consistent per function)."""
+
+    def __init__(self, tree, qual: str):
+        self.qual = qual
+        self.node = func_node(tree, qual)
+        self.mod = _MOD_OF.get(id(self.node)) if self.node is not None else None
+
+    def __bool__(self) -> bool:
+        return self.node is not None
+
+    def has(self, *snippets: str) -> bool:
+        return self.node is not None and all(has(self.node, s, self.mod) for s in snippets)
+
+    def expr(self, *srcs: str) -> bool:
+        return self.node is not None and all(has_expr(self.node, s, self.mod) for s in srcs)
+
+    def order(self, *snippets: str) -> bool:
+        """each snippet occurs, and their first occurrences come in this order (by line)"""
+        lines = []
+        for sn in snippets:
+            ln = first_line(self.node, sn, self.mod)
+            if ln is None:
+                return False
+            lines.append(ln)
+        return lines == sorted(lines) and len(set(lines)) == len(lines)
+
+    @property
+    def scope(self) -> Scope:
+        return scope_of(self.node, self.mod)
+
+    def src(self) -> str:
+        return ast.unparse(self.node) if self.node is not None else ""
+
+
+def first_line(fnode, snippet: str, mod_tree=None) -> Optional[int]:
+    import textwrap
+    if fnode is None:
+        return None
+    try:
+        exp = ast.parse(textwrap.dedent(snippet)).body
+    except SyntaxError:
+        return None
+    sc = scope_of(fnode, mod_tree)
+    best = None
+    for n in ast.walk(fnode):
+        for f in ("body", "orelse", "finalbody"):
+            b = getattr(n, f, None)
+            if isinstance(b, list) and b and isinstance(b[0], ast.stmt):
+                for k in range(len(b)):
+                    saved = dict(sc.env)
+                    if _match_block(exp, b[k:k + len(exp)], sc, anchored=True) if not any(_is_ellipsis_stmt(x) for x in exp) else _match_block(exp, b[k:], sc, anchored=False):
+                        if best is None or b[k].lineno < best:
+                            best = b[k].lineno
+                        break
+                    sc.env = saved
+    return best
+
+
+class _Rename(ast.NodeTransformer):
+    def __init__(self, mapping):
+        self.m = mapping
+
+    def visit_Name(self, n):
+        return ast.copy_location(ast.Name(id=self.m.get(n.id, n.id), ctx=n.ctx), n)
+
+
+def renamed(node, mapping: Dict[str, str]):
+    import copy
+    return ast.fix_missing_locations(_Rename(mapping).visit(copy.deepcopy(node)))
